@@ -31,22 +31,22 @@ const tlaJars = "/opt/veriftools/tla/tla2tools.jar:/opt/veriftools/tla/Community
 
 // TLCRun describes one TLC invocation whose state dump is streamed to a handler.
 type TLCRun struct {
-	Module   string            // MC module name (file Module.tla, config Module.cfg unless Cfg set)
-	Cfg      string            // optional cfg file name
-	Consts   map[string]string // optional: constants appended to a generated cfg (NAME = value)
+	Module     string            // MC module name (file Module.tla, config Module.cfg unless Cfg set)
+	Cfg        string            // optional cfg file name
+	Consts     map[string]string // optional: constants appended to a generated cfg (NAME = value)
 	ConstSubst map[string]string // optional: constant substitutions (NAME <- definition)
-	Workers  int
-	Timeout  time.Duration
-	HeapGB   int
-	Simulate string   // non-empty => "-simulate <value>" e.g. "num=1000"
-	Depth    int      // -depth for simulation
-	Seed     int64    // -seed for simulation
-	Extra    []string // additional TLC args
-	NoDump   bool     // don't dump states (trace validation runs)
-	Files    map[string][]byte // extra files to write in the scratch dir (traces)
-	KeepVars []string // if set, only these variables are parsed from each state
-	Collect  string   // glob (relative to the scratch dir) of files to return in TLCStats.Files
-	Parts    int      // >1: run this many TLC processes in parallel with constants NParts/Part (spec must support them)
+	Workers    int
+	Timeout    time.Duration
+	HeapGB     int
+	Simulate   string            // non-empty => "-simulate <value>" e.g. "num=1000"
+	Depth      int               // -depth for simulation
+	Seed       int64             // -seed for simulation
+	Extra      []string          // additional TLC args
+	NoDump     bool              // don't dump states (trace validation runs)
+	Files      map[string][]byte // extra files to write in the scratch dir (traces)
+	KeepVars   []string          // if set, only these variables are parsed from each state
+	Collect    string            // glob (relative to the scratch dir) of files to return in TLCStats.Files
+	Parts      int               // >1: run this many TLC processes in parallel with constants NParts/Part (spec must support them)
 }
 
 type TLCStats struct {
